@@ -122,15 +122,8 @@ class TSRun:
         # decided at the call site by apply(); we only get the callee here, so inline every
         # sampler / propagator method and module function that is not a rep-change primitive
         # and takes a dict-like walker-state parameter (checked by annotation or name flow).
-        if callee.module not in ("sampling", "propagation"):
-            return False
-        if callee.cls is None:
-            return False
-        for prm in callee.params:
-            ann = getattr(prm.annotation, "id", None)
-            if ann == "dict" and prm.name.startswith("prop"):
-                return True
-        return False
+        from ..symex import walker_state_glue
+        return walker_state_glue(callee)
 
 
 class Judge:
